@@ -6,6 +6,7 @@ import json
 import os
 import re
 import shutil
+import threading
 import sys
 import time
 
@@ -47,9 +48,19 @@ def tla_val(v):
     raise TypeError(v)
 
 
-def write_config(wd, c):
+def copy_specs(wd):
+    """The specification modules next to the generated MC_* modules; written atomically (configurations run concurrently)."""
     for f in ("PoolImpl.tla", "PoolImplMC.tla", "Monitor.tla", "SlotAccounting.tla"):
-        shutil.copy(os.path.join(common.SPEC, f), os.path.join(wd, f))
+        src, dst = os.path.join(common.SPEC, f), os.path.join(wd, f)
+        if os.path.exists(dst) and open(src, "rb").read() == open(dst, "rb").read():
+            continue
+        tmp = "%s.%d.%d.tmp" % (dst, os.getpid(), threading.get_ident())
+        shutil.copy(src, tmp)
+        os.replace(tmp, dst)
+
+
+def write_config(wd, c):
+    copy_specs(wd)
     mod = "MC_" + c["name"]
     tpl = [dict(t, bad=set(t["bad"])) for t in c["tpl"]]
     plan = dict(c["plan"], bad=set(c["plan"]["bad"]))
